@@ -4,8 +4,10 @@
 (*   Run{end: layout, cut, fault, mid}  the connection is faulted after `cut`   *)
 (*                                  bytes; mid: that is inside a response       *)
 (*   Ret{i, res}                    the blocking call of command i returned     *)
-(*   End{issued, closed, hung, self} the run is over; self: every call had      *)
-(*                                  returned before the caller closed the client*)
+(*   End{issued, closed, hung, self, dead} the run is over; self: every call    *)
+(*                                  had returned before the caller closed the   *)
+(*                                  client; dead: how one more command, issued  *)
+(*                                  after a call had reported the failure, ended*)
 EXTENDS ClientFault, Json, IOUtils
 
 VARIABLE l
@@ -30,6 +32,7 @@ Ret(r) ==
 End(r) ==
   /\ ~r.hung /\ r.closed
   /\ (fault = "stall" /\ inside) => r.self      \* the client's own timeout, not the caller's Close
+  /\ r.dead \in {"", "err"}                      \* IssueDead: a command issued after the failure fails at once
   /\ \A i \in 1..r.issued : Returned(i)
   /\ reader' = "exited" /\ closeSt' = "returned"
   /\ UNCHANGED <<layout, delivered, fault, inside, issued, result>>
